@@ -24,7 +24,7 @@ META = {
 
 
 def astscan_structs():
-    code, out, _ = vlib.run([vlib.GO, "run", "./cmd/astscan", "/repo"], 300, cwd=vlib.HARNESS, env=vlib.GOENV)
+    code, out, _ = vlib.run([vlib.GO, "run", "./cmd/astscan", vlib.REPO], 300, cwd=vlib.HARNESS, env=vlib.GOENV)
     if code != 0:
         raise vlib.MachineryError("astscan failed\n" + out[-2000:])
     d = json.loads(out[out.index("{"):])
